@@ -118,7 +118,18 @@ class P:
             return f.get("E") == "nil" and f.get("M", "") == nexp[c]
         npart = {"name": "comments-in-nested-substitutions", "harness": "parse", "driver": None, "cases": nc, "impl_ok": nested_ok,
                  "nontrivial": lambda c: True, "distribution": {"cases": len(nc), "enclosing_expansions": len(subs)}}
-        return [deriv, hpart, npart] + token_parts(rnd, tier, 3000 if tier == "quick" else 40000)
+        # a word directly before a redirection operator is an IO number only when it is one all-digit literal: the same program
+        # with and without a blank between the word and the operator (harness layout: equal skeletons, both accepted)
+        wr = []
+        for a, b in [("echo 2\"\">x\n", "echo 2\"\" >x\n"), ("echo 1$a>x\n", "echo 1$a >x\n"), ("echo 3$(a)<y\n", "echo 3$(a) <y\n"), ("echo 4`a`>>z\n", "echo 4`a` >>z\n"),
+                     ("echo 5$((1))>x\n", "echo 5$((1)) >x\n"), ("echo a2>x\n", "echo a2 >x\n"), ("echo 2a>x\n", "echo 2a >x\n"), ("echo '2'>x\n", "echo '2' >x\n"),
+                     ("echo \\2>x\n", "echo \\2 >x\n"), ("echo 2''<x\n", "echo 2'' <x\n"), ("echo ${a}2>x\n", "echo ${a}2 >x\n"), ("echo 22\"a\">&2\n", "echo 22\"a\" >&2\n"),
+                     ("2\"\">x\n", "2\"\" >x\n"), ("<y 2$a>x b\n", "<y 2$a >x b\n"), ("echo 1${a}>&2\n", "echo 1${a} >&2\n"), ("echo 4`a`>|x\n", "echo 4`a` >|x\n"),
+                     ("echo 5$((1))<>x\n", "echo 5$((1)) <>x\n"), ("if a 7$b>x; then c; fi\n", "if a 7$b >x; then c; fi\n"), ("echo 12<<E\nb\nE\n", "echo 12<< E\nb\nE\n")]:
+            wr.append("%s\t\t%s\t" % (hx(a), hx(b)))
+        wpart = {"name": "word-before-redirection", "harness": "layout", "driver": None, "cases": wr, "impl_ok": lambda c, o: o == "ok",
+                 "nontrivial": lambda c: True, "distribution": {"pairs": len(wr)}}
+        return [deriv, hpart, npart, wpart] + token_parts(rnd, tier, 3000 if tier == "quick" else 40000)
 
     def describe(self, part, case):
         if len(case.split("\t")) == 3 and "#" in case.split("\t")[1]:
